@@ -6,6 +6,7 @@ from ..ref import alt as ralt
 from ..ref import bits
 
 LEVEL = "exploration"
+BRANCH_TARGETS = ['pyModeS.py_common:altitude', 'pyModeS.py_common:gray2alt', 'pyModeS.py_common:altcode', 'pyModeS.decoder.bds.bds05:altitude', 'pyModeS.decoder.adsb:altitude']
 TECHNIQUE = 'runtime monitoring: exhaustive execution of all 8192 / 4096 codes against a table produced by forward Gillham/Q/M encoders, single-bit non-interference probes'
 LEVEL_TEXT = 'The code domain is finite and enumerated completely on every run (exhaustive: true for the altitude-field sub-domain); the other frame bits are sampled.'
 EXHAUSTIVE = True
